@@ -58,8 +58,10 @@ class _TwistedInputDescriptor(FileDescriptor):
     def fileno(self) -> int:
         return self._fileno
 
-    def doRead(self):
-        return self.cb()
+    def doRead(self) -> None:
+        # Twisted treats any true value returned by doRead() as a connection-lost reason and drops the reader;
+        # the return value of a watch_file callback has no meaning and must not reach the reactor.
+        self.cb()
 
     def getHost(self):
         raise NotImplementedError("No network operation expected")
